@@ -15,7 +15,12 @@ typedef struct S_struct_rml__internal__ExtMemoryPool ext_t;
 typedef struct S_class_rml__internal__TLSData tls_t;
 typedef struct S_struct_rml__internal__LargeMemoryBlock lmb_t;
 typedef unsigned __int128 u128;
+#ifndef ARENA
 #define ARENA 1024
+#endif
+#ifndef OFFMAX
+#define OFFMAX 3
+#endif
 u8 area[ARENA] __attribute__((aligned(ARENA)));   /* alignments tested for placement are <= ARENA/2 */
 u64 vpx_pthread_self(void) { return 1; }
 
@@ -36,7 +41,7 @@ lmb_t* _ZN3rml8internal13ExtMemoryPool17mallocLargeObjectEPNS0_10MemoryPoolEm(ex
      grows steeply with the size of byte-addressed objects). getFromLLOCache touches the block header and the 16 bytes in front
      of the returned object, which lies at or left of lmb+asz-size: so only requests with off+(asz-size) <= ARENA may succeed,
      everything else fails ("the allocator may fail at any time"); an access outside the arena is reported by cbmc. */
-  u64 off = 64 * vp_nd_range(0, 3);
+  u64 off = OFFMAX ? 64 * vp_nd_range(0, OFFMAX) : 0;
   if (vp_nd_bool() || asz < req_size || off + (asz - req_size) > ARENA) { mlo_null = 1; return 0; }
   the_lmb = area + off;
   u64 m = vp_nd(), o = vp_nd(); __CPROVER_assume(m < 0xffffffffu && o < (1u << 15));
